@@ -52,8 +52,10 @@ JudgeC10 ==
       must == ConflictsMust(G, A.predict, A.follow, Own)
       may  == ConflictsMay(G, A.predict, A.follow, Own)
       impl == {<<G.lel.conf[i][1], G.lel.conf[i][2]>> : i \in DOMAIN G.lel.conf}
+      narrow == NarrowE012(G, A.predict, A.follow, Own)
   IN /\ \A x \in must \ impl :
-          Say([g |-> G.name, p |-> "C10", what |-> "missing", code |-> x[1], n |-> x[2]])
+          Say([g |-> G.name, p |-> "C10", what |-> "missing", code |-> x[1], n |-> x[2],
+               cause |-> IF x[1] = "E012" /\ x \notin narrow THEN "inrule_selfref" ELSE "other"])
      /\ \A x \in impl \ may :
           Say([g |-> G.name, p |-> "C10", what |-> "spurious", code |-> x[1], n |-> x[2]])
 
